@@ -15,6 +15,8 @@
 
 """Handling for action callbacks."""
 from types import FrameType
+
+import deep.logging
 from typing import List
 
 from deep.api.tracepoint.trigger import Location
@@ -73,7 +75,11 @@ class CallbackContext(Location, ActionCallback):
         :return: True, to keep this callback until next match.
         """
         for callback in self.__callbacks:
-            callback.process(ctx, event, frame, arg)
+            try:
+                callback.process(ctx, event, frame, arg)
+            except BaseException:
+                # e.g. the snapshot cannot be delivered any more: the other callbacks (the span to close) still run
+                deep.logging.exception("Failed to process callback %s", callback)
 
     @property
     def id(self) -> str:
